@@ -10,7 +10,14 @@
     src/Array.c List.c Table.c Tree.c   element births: Array_Alloc, List_Alloc, Table_Set_Move, Tree_Alloc write
                       (element type, AllocData); the operations that create, move and drop elements
     src/String.c Tuple.c   the `header(self)->alloc is AllocStack or AllocStatic` guards of every reallocating function
-    src/GC.c          registry membership (GC_Set only from alloc_by), GC_Rem_Ptr, GC_Sweep
+    src/GC.c          registry membership (GC_Set only from alloc_by); GC_Rem / GC_Rem_Ptr (an object found on the pending
+                      list is struck off and finalised; an object found in the registry is erased and finalised);
+                      GC_Sweep (phase 1: the unmarked non-root entries leave the registry for the pending list, in slot
+                      order; phase 2: every slot that is still non-NULL is cleared and its object finalised); GC_Del /
+                      Cello_Exit (a sweep with nothing marked)
+    src/Pointer.c     Box_New / Box_Assign / Box_Ref / Box_Del: the destructor of a Box `del`s what the Box points to, so
+                      releases nest: a destructor running inside `del`, `del_raw`, a sweep or the teardown deletes another
+                      object, which may itself be waiting in the same sweep (chains, rings, a Box that owns itself)
     src/Iter.c        what Range / Slice / Zip / Filter / Map hand out
 
   Everything a source change can flip is a parameter (`Config`) whose current value `Config.current` is computed from
@@ -78,6 +85,18 @@ def deallocRefusedOf (evs : List CelloGen.Hdr.DeallocEv) : List (Nat × String) 
     | .classCheck c exc => some (c, exc)
     | _ => none)
 
+/-- when an object is un-listed (pending slot cleared / registry entry erased) relative to its finalisation -/
+inductive When where
+  | before | after | never
+deriving DecidableEq, Repr, Inhabited
+
+/-- position of the un-listing event `c` relative to the finalisation in a list of events read from the source -/
+def whenOf (c : CelloGen.Hdr.GcEv) (evs : List CelloGen.Hdr.GcEv) : When :=
+  match evs.findIdx? (· == c), evs.findIdx? (· == .finalise) with
+  | some i, some j => if i < j then .before else .after
+  | some _, none => .before
+  | none, _ => .never
+
 structure Config where
   cStatic : Nat
   cStack : Nat
@@ -121,6 +140,13 @@ structure Config where
   roundTable : Bool
   roundTree : Bool
   typeBlock : Nat
+  swClear : When          -- GC_Sweep's release loop: the pending slot is cleared before / after / never relative to `dealloc(destruct(item))`
+  swFinalises : Bool      -- ... and the loop finalises the objects it finds
+  swUnlistsFirst : Bool   -- GC_Sweep: the victims leave the registry (phase 1) before the first of them is finalised (phase 2)
+  remPendClear : When     -- GC_Rem_Ptr, object found on the pending list: slot cleared before / after / never
+  remPendFinalises : Bool -- ... and the object is finalised there
+  remRegErase : When      -- GC_Rem_Ptr, object found in the registry: entry erased before / after / never
+  boxDelDeletes : Bool    -- Box_Del `del`s the pointee
 deriving Repr
 
 /-- the configuration of the code that is in /repo now -/
@@ -148,7 +174,14 @@ def Config.current : Config :=
     gcSetOnlyAllocBy := CelloGen.Hdr.gcSetSites == ["alloc_by"],
     roundArray := CelloGen.Hdr.arrayRoundsSize, roundList := CelloGen.Hdr.listRoundsSize,
     roundTable := CelloGen.Hdr.tableRoundsSize, roundTree := CelloGen.Hdr.treeRoundsSize,
-    typeBlock := 24 * (2 + CelloGen.Hdr.cacheNum / 3 + CelloGen.Hdr.maxInstances + 1) }
+    typeBlock := 24 * (2 + CelloGen.Hdr.cacheNum / 3 + CelloGen.Hdr.maxInstances + 1),
+    swClear := whenOf .clear CelloGen.Hdr.sweepLoopEvents,
+    swFinalises := CelloGen.Hdr.sweepLoopEvents.contains .finalise,
+    swUnlistsFirst := CelloGen.Hdr.sweepPhases == [.reset, .collect, .release, .reset],
+    remPendClear := whenOf .clear CelloGen.Hdr.remPendingEvents,
+    remPendFinalises := CelloGen.Hdr.remPendingEvents.contains .finalise,
+    remRegErase := whenOf .erase CelloGen.Hdr.remRegistryEvents,
+    boxDelDeletes := CelloGen.Hdr.boxDelEvents == [.test, .finalise, .clear] }
 
 /-- a guard that protects stack and static objects, before anything is changed, and lets heap and embedded ones through -/
 def Guard.Protects (cfg : Config) (g : Guard) : Bool :=
@@ -176,33 +209,36 @@ def Config.Sound (cfg : Config) : Bool :=
   cfg.tPushAt.Protects cfg && cfg.tPopAt.Protects cfg && cfg.tConcat.Protects cfg && cfg.tResize.Protects cfg &&
   -- registration
   cfg.regStandard == some false && cfg.regRaw == none && cfg.regRoot == some true &&
-  cfg.delViaCollector && cfg.gcSetOnlyAllocBy
+  cfg.delViaCollector && cfg.gcSetOnlyAllocBy &&
+  -- the collector un-lists an object (pending slot cleared, registry entry erased) before it finalises it, on every path
+  cfg.swClear == .before && cfg.swFinalises && cfg.swUnlistsFirst &&
+  cfg.remPendClear == .before && cfg.remPendFinalises && cfg.remRegErase == .before && cfg.boxDelDeletes
 
 /-! ## objects -/
 
 inductive Ty where
-  | type | int | string | tuple | array | list | table | tree | ref | range
+  | type | int | string | tuple | array | list | table | tree | ref | range | box
   | builtin (name : String)   -- any other built-in type (only its static Type object is ever observed)
   | rt (k : Nat)              -- run-time type number k, made with new(Type, ...)
 deriving DecidableEq, Repr, Inhabited
 
 def Ty.name : Ty → String
   | .type => "Type" | .int => "Int" | .string => "String" | .tuple => "Tuple" | .array => "Array"
-  | .list => "List" | .table => "Table" | .tree => "Tree" | .ref => "Ref" | .range => "Range"
+  | .list => "List" | .table => "Table" | .tree => "Tree" | .ref => "Ref" | .range => "Range" | .box => "Box"
   | .builtin n => n | .rt k => s!"RT{k}"
 
 def Ty.ofName (n : String) : Ty :=
   if n == "Type" then .type else if n == "Int" then .int else if n == "String" then .string
   else if n == "Tuple" then .tuple else if n == "Array" then .array else if n == "List" then .list
   else if n == "Table" then .table else if n == "Tree" then .tree else if n == "Ref" then .ref
-  else if n == "Range" then .range
+  else if n == "Range" then .range else if n == "Box" then .box
   else if n.startsWith "RT" then (match (n.drop 2).toString.toNat? with | some k => .rt k | none => .builtin n)
   else .builtin n
 
 /-- `sizeof(struct T)` of the built-in types used here (x86-64) -/
 def builtinSize : Ty → Nat
   | .type => 0 | .int => 8 | .string => 8 | .tuple => 8 | .array => 40 | .list => 40 | .table => 72
-  | .tree => 48 | .ref => 8 | .range => 32 | .builtin _ => 0 | .rt _ => 0
+  | .tree => 48 | .ref => 8 | .range => 32 | .box => 8 | .builtin _ => 0 | .rt _ => 0
 
 /-- `struct Header`: the type pointer (NULL in static Cello types until `Type_Of` fills it), the class, the magic number -/
 structure Header where
@@ -249,6 +285,7 @@ inductive Body where
   | seq (k : SeqKind) (ety : Ty) (elems : List Elem)
   | map (k : MapKind) (kty vty : Ty) (ents : List (Elem × Elem))   -- kept sorted by key
   | ref (target : Nat)
+  | box (val : Option Nat)                      -- a Box: the handle it points to (`none` = NULL); its destructor `del`s it
   | tyobj (t : Ty) (size : Nat)                 -- a Type object (static built-in or run-time)
   | destroyed                                   -- after its destructor ran
 deriving DecidableEq, Repr, Inhabited
@@ -263,11 +300,12 @@ deriving DecidableEq, Repr, Inhabited
 structure St where
   objs : List (Nat × Obj)      -- handle ↦ object
   reg : List (Nat × Bool)      -- the collector's registry: handle, root flag
+  pending : List (Option Nat)  -- `freelist[0 .. freenum)` while a sweep is under way: `none` = a slot that was cleared
   freed : List Nat             -- every release of an object's block, in order
   rtSizes : List (Nat × Nat)   -- `__Size` of the run-time types
 deriving Repr, Inhabited
 
-def St.init : St := { objs := [], reg := [], freed := [], rtSizes := [] }
+def St.init : St := { objs := [], reg := [], pending := [], freed := [], rtSizes := [] }
 
 def St.get (s : St) (id : Nat) : Option Obj := assoc id s.objs
 
@@ -285,6 +323,27 @@ def St.usableArg (s : St) (id : Nat) : Bool :=
   match s.get id with
   | some o => o.live && o.body != .tyobj (.builtin "Terminal") 0
   | none => false
+
+/-- is the object what some live Box points to? (its destructor will `del` it) -/
+def St.owned (s : St) (id : Nat) : Bool :=
+  s.objs.any (fun p => p.2.live && p.2.body == .box (some id))
+
+/-- can be put into a Tuple: usable, no live Box owns it (a Tuple must never hold an object that a destructor releases
+    behind its back: the collector's mark phase dereferences the items of every live Tuple), and not a Box itself (the
+    message of a refused `dealloc` shows the Tuple with its items, and `Box_Show` follows the pointer: a ring of Boxes
+    would be shown for ever) -/
+def St.usableItem (s : St) (id : Nat) : Bool :=
+  s.usableArg id && !s.owned id &&
+  (match s.get id with
+   | some o => (match o.body with | .box _ => false | _ => true)
+   | none => false)
+
+/-- can be given to a Box: usable, not a Type object, not an item of a live Tuple -/
+def St.ownable (s : St) (id : Nat) : Bool :=
+  s.usableArg id && !s.referenced id &&
+  (match s.get id with
+   | some o => (match o.body with | .tyobj _ _ => false | _ => true)
+   | none => false)
 
 def St.sizeOf (s : St) : Ty → Nat
   | .rt k => (assoc k s.rtSizes).getD 0
@@ -444,6 +503,76 @@ def FreeOp.name : FreeOp → String
 def FreeOp.viaCollector : FreeOp → Bool
   | .del => true | .delRoot => true | _ => false
 
+/-! ## the collector's release paths
+
+  `dealloc(destruct(x))` nests: the destructor of a Box `del`s its pointee through `GC_Rem`, which finalises that object
+  in turn if the collector still lists it — in the registry, or on the pending list of the sweep that is under way.
+  The recursion ends because an object is un-listed *before* its destructor runs (`Config.swClear`, `remPendClear`,
+  `remRegErase` = `.before` in the code that exists), so the `del` that comes back to it finds nothing.  The other
+  orders are modelled too (they are what a reordering of those statements gives): the same object is then finalised
+  again while its first destructor is still running, which ends in the use of a released block (`Outcome.ub`). -/
+
+/-- `freelist[i] = NULL` for the slot that holds `x` -/
+def strike (x : Nat) (p : List (Option Nat)) : List (Option Nat) :=
+  p.map (fun o => if o = some x then none else o)
+
+/-- `GC_Rem` → `GC_Rem_Ptr(gc, x)`, with `fin s y` = `dealloc(destruct(y))` in state `s`: pending list first, then the registry;
+    an exception leaves through every frame, so the statements after a failing call are not executed -/
+def gcRem (fin : St → Nat → St × Outcome) (cfg : Config) (s : St) (x : Nat) : St × Outcome :=
+  if s.pending.contains (some x) then
+    if cfg.remPendFinalises then
+      match cfg.remPendClear with
+      | .before => fin { s with pending := strike x s.pending } x
+      | .after =>
+        (match fin s x with
+         | (s1, .ok) => ({ s1 with pending := strike x s1.pending }, .ok)
+         | r => r)
+      | .never => fin s x
+    else
+      (match cfg.remPendClear with
+       | .never => (s, .ok)
+       | _ => ({ s with pending := strike x s.pending }, .ok))
+  else if s.isReg x then
+    match cfg.remRegErase with
+    | .before => fin (s.unreg x) x
+    | .after =>
+      (match fin s x with
+       | (s1, .ok) => (s1.unreg x, .ok)
+       | r => r)
+    | .never => fin s x
+  else (s, .ok)
+
+/-- `dealloc(destruct(id))`.  `fuel` bounds the nesting of destructors; `fuelFor` always suffices when objects are
+    un-listed first (theorem `finalise_ok`): every nested call is preceded by the removal of one object from the registry or
+    the pending list.  Out of fuel = unbounded recursion in C: reported as `ub`, so that nothing holds because of it. -/
+def finalise : Nat → Config → St → Nat → St × Outcome
+  | 0, _, s, _ => (s, .ub)
+  | fuel + 1, cfg, s, id =>
+    match s.get id with
+    | none => (s, .ub)
+    | some o =>
+      if !o.live then (s, .ub) else          -- the destructor of a released object: use of a freed block
+      match o.body with
+      | .box (some x) =>
+        if cfg.boxDelDeletes then
+          -- Box_Del: `if (obj) { del(obj); }  Box_Ref(self, NULL);` then dealloc
+          (match gcRem (finalise fuel cfg) cfg s x with
+           | (s1, .ok) =>
+             if s1.isLive id then dealloc cfg (s1.updBody id (fun _ => .box none)) id { o with body := .box none }
+             else (s1, .ub)                   -- the Box itself was released by the nested deletions
+           | r => r)
+        else dealloc cfg (s.updBody id (fun _ => .box none)) id { o with body := .box none }
+      | _ =>
+        let (b, out) := destructBody cfg o.hdr o.body
+        match out with
+        | .ok => dealloc cfg (s.updBody id (fun _ => b)) id { o with body := b }
+        | other => (s, other)
+
+/-- number of objects the collector lists -/
+def St.listed (s : St) : Nat := s.reg.length + (s.pending.filter Option.isSome).length
+
+def fuelFor (s : St) : Nat := s.listed + 2
+
 /-- a freeing operation applied to a whole live object -/
 def freeObj (cfg : Config) (s : St) (f : FreeOp) (id : Nat) (o : Obj) : St × Outcome :=
   match f with
@@ -452,26 +581,12 @@ def freeObj (cfg : Config) (s : St) (f : FreeOp) (id : Nat) (o : Obj) : St × Ou
     let (b, out) := destructBody cfg o.hdr o.body
     (s.updBody id (fun _ => b), out)
   | .del | .delRoot =>
-    -- rem(current(GC), self): GC_Rem_Ptr ignores a pointer that is not registered
-    if cfg.delViaCollector then
-      if s.isReg id then
-        let s1 := s.unreg id
-        let (b, out) := destructBody cfg o.hdr o.body
-        match out with
-        | .ok => dealloc cfg (s1.updBody id (fun _ => b)) id { o with body := b }
-        | other => (s1, other)
-      else (s, .ok)
-    else
-      let (b, out) := destructBody cfg o.hdr o.body
-      match out with
-      | .ok => dealloc cfg (s.updBody id (fun _ => b)) id { o with body := b }
-      | other => (s, other)
+    -- rem(current(GC), self): GC_Rem_Ptr ignores a pointer that is neither pending nor registered
+    if cfg.delViaCollector then gcRem (finalise (fuelFor s) cfg) cfg s id
+    else finalise (fuelFor s) cfg s id
   | .delRaw =>
     -- dealloc(destruct(self))
-    let (b, out) := destructBody cfg o.hdr o.body
-    match out with
-    | .ok => dealloc cfg (s.updBody id (fun _ => b)) id { o with body := b }
-    | other => (s, other)
+    finalise (fuelFor s) cfg s id
 
 /-- a freeing operation applied to an embedded object -/
 def freeElem (cfg : Config) (f : FreeOp) (e : Elem) : Elem × Outcome :=
@@ -585,12 +700,12 @@ def tupleOp (cfg : Config) (s : St) (alloc : Nat) (items : List Nat) (op : InPla
   let n := items.length
   match op with
   | .push src =>
-    if s.usableArg src then some (runGuarded cfg cfg.tPush alloc none b (fun _ => .tuple (items ++ [src]))) else none
+    if s.usableItem src then some (runGuarded cfg cfg.tPush alloc none b (fun _ => .tuple (items ++ [src]))) else none
   | .pop =>
     some (runGuarded cfg cfg.tPop alloc (if n = 0 then some "IndexOutOfBoundsError" else none) b
       (fun _ => .tuple (items.take (n - 1))))
   | .pushAt src i =>
-    if s.usableArg src then
+    if s.usableItem src then
       match normIdx n i with
       | none => some (runGuarded cfg cfg.tPushAt alloc (some "IndexOutOfBoundsError") b id)
       | some j => some (runGuarded cfg cfg.tPushAt alloc none b (fun _ => .tuple (insertAt items j src)))
@@ -866,20 +981,64 @@ def St.isTypeInUse (s : St) (id : Nat) : Bool :=
 def St.sweepVictims (s : St) (victims : List Nat) : List Nat :=
   (s.reg.filter (fun p => victims.contains p.1 && !p.2 && !s.isTypeInUse p.1 && !s.referenced p.1)).map (·.1)
 
-def sweepOne (cfg : Config) (s : St) (id : Nat) : St :=
-  if !s.isReg id then s else      -- GC_Sweep walks the registry: nothing else can be released by it
-  match s.get id with
-  | some o =>
-    let s1 := s.unreg id
-    let (b, out) := destructBody cfg o.hdr o.body
-    (match out with
-     | .ok => (dealloc cfg (s1.updBody id (fun _ => b)) id { o with body := b }).1
-     | _ => s1)
-  | none => s.unreg id
+/-- the slot order of a collection: the victims listed in `order` first, in that order, then the others (in registration
+    order).  The slot order of the registry depends on the addresses; it is a parameter of every collection, the theorems
+    hold for every order. -/
+def arrange : List Nat → List Nat → List Nat
+  | [], cand => cand
+  | o :: os, cand => if cand.contains o then o :: arrange os (cand.erase o) else arrange os cand
 
-def St.sweep (cfg : Config) (s : St) (victims : List Nat) : St × List Nat :=
-  let vs := s.sweepVictims victims
-  (vs.foldl (sweepOne cfg) s, vs)
+/-- GC_Sweep's release loop over the pending list as phase 1 built it (`todo`): a slot that is still non-NULL is cleared
+    and its object finalised -/
+def sweepLoop (fuel : Nat) (cfg : Config) : List Nat → St → St × Outcome
+  | [], s => (s, .ok)
+  | a :: rest, s =>
+    if s.pending.contains (some a) then
+      if cfg.swFinalises then
+        let r :=
+          match cfg.swClear with
+          | .before => finalise fuel cfg { s with pending := strike a s.pending } a
+          | .after =>
+            (match finalise fuel cfg s a with
+             | (s1, .ok) => ({ s1 with pending := strike a s1.pending }, .ok)
+             | r => r)
+          | .never => finalise fuel cfg s a
+        match r with
+        | (s', .ok) => sweepLoop fuel cfg rest s'
+        | r => r
+      else
+        (match cfg.swClear with
+         | .never => sweepLoop fuel cfg rest s
+         | _ => sweepLoop fuel cfg rest { s with pending := strike a s.pending })
+    else sweepLoop fuel cfg rest s
+
+/-- GC_Sweep when exactly the registered objects `vs` (in slot order) are unmarked and not roots: they leave the registry
+    for the pending list, then the release loop runs, then the list is dropped (not when an exception leaves the loop) -/
+def St.collect (cfg : Config) (s : St) (vs : List Nat) : St × Outcome :=
+  let s1 := { s with reg := s.reg.filter (fun p => !vs.contains p.1), pending := vs.map some }
+  match sweepLoop (fuelFor s1) cfg vs s1 with
+  | (s2, .ok) => ({ s2 with pending := [] }, .ok)
+  | r => r
+
+/-- a collector run in which exactly `victims` are found unreachable, the registry being laid out as `order` says:
+    the new state, the blocks released (in order), the outcome -/
+def St.sweep (cfg : Config) (s : St) (victims order : List Nat) : St × List Nat × Outcome :=
+  let r := s.collect cfg (arrange order (s.sweepVictims victims))
+  (r.1, r.1.freed.drop s.freed.length, r.2)
+
+/-- the teardown (`GC_Del`, from `Cello_Exit`): a sweep with nothing marked — every registered object that is not a root -/
+def St.exitVictims (s : St) : List Nat := (s.reg.filter (fun p => !p.2)).map (·.1)
+
+/-- is a run-time Type object among the objects the teardown releases? (its instances may be finalised after it: the
+    engine does not exercise that) -/
+def St.exitHasType (s : St) : Bool :=
+  s.exitVictims.any (fun id => match s.get id with
+    | some o => (match o.body with | .tyobj _ _ => true | _ => false)
+    | none => false)
+
+def St.teardown (cfg : Config) (s : St) (order : List Nat) : St × List Nat × Outcome :=
+  let r := s.collect cfg (arrange order s.exitVictims)
+  (r.1, r.1.freed.drop s.freed.length, r.2)
 
 /-! ## operations -/
 
@@ -888,6 +1047,7 @@ inductive Init where
   | str (t : String)
   | tuple (items : List Nat)
   | ref (target : Nat)
+  | box (target : Option Nat)
   | seq (k : SeqKind) (ety : Ty) (vals : List Scalar)
   | map (k : MapKind) (kty vty : Ty) (ents : List (Scalar × Scalar))
   | rtType (k size : Nat)
@@ -895,7 +1055,7 @@ inductive Init where
 deriving Repr, Inhabited
 
 def Init.ty : Init → Ty
-  | .int _ => .int | .str _ => .string | .tuple _ => .tuple | .ref _ => .ref
+  | .int _ => .int | .str _ => .string | .tuple _ => .tuple | .ref _ => .ref | .box _ => .box
   | .seq .array _ _ => .array | .seq .list _ _ => .list
   | .map .table _ _ _ => .table | .map .tree _ _ _ => .tree
   | .rtType _ _ => .type | .rtObj k _ => .rt k
@@ -910,7 +1070,10 @@ inductive Op where
   | iter (id : Nat) (back : Bool)
   | values (id : Nat)
   | view (v : View)
-  | sweep (victims : List Nat)
+  | own (id : Nat) (target : Option Nat)        -- ref(box, target): re-point a Box (NULL when `none`)
+  | sweep (victims order : List Nat)           -- GC_Sweep with exactly these unmarked, registry laid out as `order`
+  | thr (victims order : List Nat)             -- the same sweep, run by GC_Set when a registration exceeds the threshold
+  | exit (order : List Nat)                    -- what the teardown at program exit does from here (observed in a forked child)
   | finish
 deriving Repr, Inhabited
 
@@ -921,7 +1084,7 @@ inductive Obs where
   | seen (t : Target)
   | did (name : String) (out : Outcome) (t : Target)
   | items (l : List (Option Seen))
-  | swept (ids : List Nat)
+  | swept (how : String) (ids : List Nat) (out : Outcome)
   | fin
 deriving Repr, Inhabited
 
@@ -949,16 +1112,41 @@ def buildBody (cfg : Config) (s : St) (r : Route) (i : Init) : Option Body :=
   | .tuple items =>
     (match r with
      | .alloc | .allocRaw | .allocRoot => none
-     | _ => if items.all (fun x => s.usableArg x) && items.length ≤ 6 then some (.tuple items) else none)
+     | _ => if items.all (fun x => s.usableItem x) && items.length ≤ 6 then some (.tuple items) else none)
   | .ref t =>
     (match r with
      | .static => none
      | .new | .newRaw | .newRoot =>
        -- construct_with → assign → Ref_Assign: an argument that is itself a pointer object is dereferenced
        (match s.get t with
-        | some o => if s.usableArg t then (match o.body with | .ref u => some (.ref u) | _ => some (.ref t)) else none
+        | some o =>
+          if s.usableArg t then
+            (match o.body with
+             | .ref u => some (.ref u)
+             | .box _ => none            -- Ref_Assign dereferences a Box too (possibly to NULL): not exercised
+             | _ => some (.ref t))
+          else none
         | none => none)
      | _ => if s.usableArg t then some (.ref t) else none)
+  | .box t =>
+    (match r with
+     | .stack | .static => none
+     | .alloc | .allocRaw | .allocRoot => (match t with | none => some (.box none) | some _ => none)   -- zeroed: val = NULL
+     | _ =>
+       -- Box_New → Box_Assign(self, arg): an argument that is itself a pointer object is dereferenced
+       (match t with
+        | none => none
+        | some t =>
+          match s.get t with
+          | some o =>
+            if s.usableArg t then
+              (match o.body with
+               | .ref u => if s.ownable u then some (.box (some u)) else none
+               | .box none => some (.box none)
+               | .box (some u) => if s.ownable u then some (.box (some u)) else none
+               | _ => if s.ownable t then some (.box (some t)) else none)
+            else none
+          | none => none))
   | .seq k ety vals =>
     if r.isHeap && !(r == .alloc || r == .allocRaw || r == .allocRoot) && s.tyUsable ety && allFit vals ety then
       some (.seq k ety (vals.map (seqElem cfg s k ety)))
@@ -986,6 +1174,7 @@ def copyBody (cfg : Config) (s : St) (o : Obj) : Option (Ty × Body) :=
   | some t, .scalar (.raw w) => some (t, .scalar (.raw w))
   | some t, .tuple items => some (t, .tuple items)
   | some t, .ref x => some (t, .ref x)
+  | some t, .box v => some (t, .box v)            -- Box_Assign(new, old): the same pointee
   | some t, .seq k ety es => some (t, .seq k ety (es.map (fun e => seqElem cfg s k ety e.val)))
   | some t, .map k kty vty ents => some (t, .map k kty vty (ents.map (fun e => mapEntry cfg s k kty vty e.1.val e.2.val)))
   | _, _ => none
@@ -1050,6 +1239,21 @@ def stepFree (cfg : Config) (s : St) (f : FreeOp) (t : Target) : St × Obs :=
          let (e1, out) := freeElem cfg f e
          (s.updBody t.id (fun b => b.setElemAt t e1), .did f.name out t))
 
+/-- `ref(box, target)` (Box_Ref): the old pointee is simply dropped -/
+def stepOwn (s : St) (id : Nat) (target : Option Nat) : St × Obs :=
+  (match s.get id with
+   | none => (s, .bad)
+   | some o =>
+     if !o.live then (s, .skip "dead") else
+     match o.body with
+     | .box _ =>
+       (match target with
+        | none => (s.updBody id (fun _ => .box none), .did "own" .ok (.obj id))
+        | some t =>
+          if s.ownable t then (s.updBody id (fun _ => .box (some t)), .did "own" .ok (.obj id))
+          else (s, .skip "unsupported"))
+     | _ => (s, .skip "unsupported"))
+
 def stepInplace (cfg : Config) (s : St) (ip : InPlace) (t : Target) : St × Obs :=
   (match s.get t.id with
    | none => (s, .bad)
@@ -1095,9 +1299,17 @@ def step (cfg : Config) (s : St) (op : Op) : St × Obs :=
     (match s.viewItems cfg v with
      | some l => (s, .items l)
      | none => (s, .skip "unsupported"))
-  | .sweep victims =>
-    let (s1, ids) := s.sweep cfg victims
-    (s1, .swept ids)
+  | .own id target => stepOwn s id target
+  | .sweep victims order =>
+    let r := s.sweep cfg victims order
+    (r.1, .swept "sweep" r.2.1 r.2.2)
+  | .thr victims order =>
+    let r := s.sweep cfg victims order
+    (r.1, .swept "thr" r.2.1 r.2.2)
+  | .exit order =>
+    if s.exitHasType then (s, .skip "unsupported") else
+    let r := s.teardown cfg order
+    (s, .swept "exit" r.2.1 r.2.2)       -- the program that goes on is the parent: its state is unchanged
   | .finish => (s, .fin)
 
 def run (cfg : Config) (s : St) (ops : List Op) : St := ops.foldl (fun st op => (step cfg st op).1) s
